@@ -21,6 +21,8 @@ NODE, NODELIST, STR, TYPE, PYVAL, PYVALS, TABLEFN, BOOL, NONE_, TABLE, SELF, OTH
     "NODE", "NODELIST", "STR", "TYPE", "PYVAL", "PYVALS", "TABLEFN", "BOOL", "NONE", "TABLE", "SELF", "OTHER", "KW", "KWLIST", "PAIRS")
 LIST_FIELDS = {"args", "elts", "values", "ops", "comparators"}
 TABLES = {"SAFE_OPERATORS", "SAFE_COMPARISONS", "SAFE_BOOL_OPS", "SAFE_FUNCTIONS"}
+FORBIDDEN_NODE_CLASSES = {"Attribute", "Subscript", "Slice", "Lambda", "ListComp", "SetComp", "DictComp", "GeneratorExp", "JoinedStr", "FormattedValue",
+                          "NamedExpr", "Await", "Yield", "YieldFrom", "Starred"}
 ALLOWED_NODE_CLASSES = {"Constant", "BinOp", "UnaryOp", "Call", "Name", "List", "Tuple", "Compare", "BoolOp", "IfExp"}
 WALKER_PRIMS = {"isinstance", "type", "zip", "callable", "tuple", "list", "len", "bool", "enumerate"}
 
@@ -240,7 +242,9 @@ class EffectChecker:
         last = self.fn.body[-1]
         if not (isinstance(last, ast.Raise) and isinstance(last.exc, ast.Call) and getattr(last.exc.func, "id", "") == "ValueError"):
             self.bad("post[default-raises]", last, "the walker does not end with `raise ValueError` for unsupported node classes")
-        extra = self.classes_returning - ALLOWED_NODE_CLASSES
+        # what the statement forbids by name (attribute access, subscripting, lambda / comprehension / f-string evaluation, anything that binds or
+        # awaits); a node class that is merely not listed (the Expression wrapper, a dict display) is confined by the call/value-use clauses above
+        extra = self.classes_returning & FORBIDDEN_NODE_CLASSES
         if extra:
             self.viol.setdefault("post[node-classes]", []).append(
                 f"node classes on which the walker can return normally but the statement forbids: {sorted(extra)}")
